@@ -177,7 +177,7 @@ def body_stream(M, pmode, vmode, fdt):
             r2, _ = c._check([ishdr[i]], core.FORK_TIMEOUT_MS)
             if r2 != 'unsat':
                 c.report('violation', f'whether record {i} is a header is not decided by its first byte (0xFF) in the code', key='stream:header-test',
-                         cond=z3.BoolVal(True))
+                         cond=ishdr[i])
                 return
     npart = sum(1 for h in hdr if not h)
     c.extra['sample'] = dict(case, pattern=''.join('H' if h else 'p' for h in hdr))
